@@ -1,6 +1,6 @@
 """C03: every mutating contract method is inert without its required witnesses."""
 PROPS = {
-    "C03": dict(lean=["NeoFS.Props.C03"], driver=None, harness=None, monitors=["C03"], facts=["consts", "access"],
+    "C03": dict(lean=["NeoFS.Props.C03"], driver=None, harness=None, monitors=["C03"], facts=["consts", "access"], diagnose="c03_diag",
                 shards=dict(quick=1, thorough=4),
                 rule="static: every exported function of the 11 contracts translated to the inertness IR on this run; all valuations of each method's witness atoms decided by Lean's kernel"),
 }
